@@ -24,7 +24,7 @@ import (
 )
 
 type Op struct {
-	Kind    string `json:"kind"` // put putreader getbytes getfile; prefix only: dropdata (the content's output file is gone, as after a Trim)
+	Kind    string `json:"kind"` // put putreader getbytes getfile trim; prefix only: dropdata (the content's output file is gone, as after a Trim)
 	ID      int    `json:"id"`
 	Content int    `json:"content,omitempty"`
 }
@@ -108,6 +108,22 @@ func genPlan(t *rapid.T, tier string) any {
 		p.Sched = gen.Sched(t, 600)
 		return p
 	}
+	if rapid.IntRange(0, 7).Draw(t, "trimtemplate") == 0 {
+		// a writer, a trimming process and a reader meet: the Trim scans while the Put's output exists but is incomplete
+		id := 0
+		a := rapid.IntRange(0, nc-1).Draw(t, "trimcontent")
+		w := rapid.SampledFrom([]string{"put", "putreader"}).Draw(t, "trimwriter")
+		p.Tasks = []TaskPlan{
+			{Proc: 1, Ops: []Op{{Kind: w, ID: id, Content: a}}},
+			{Proc: 2, Ops: []Op{{Kind: "trim"}}},
+			{Proc: 3, Ops: []Op{{Kind: "getbytes", ID: id}}},
+		}
+		p.Torn = rapid.Bool().Draw(t, "torn")
+		p.ReadChunk = rapid.SampledFrom([]int{64, 512, 4096, 65536}).Draw(t, "readchunk")
+		p.Chunk = rapid.SampledFrom([]int{100, 4096, 1 << 20}).Draw(t, "chunk")
+		p.Sched = gen.Sched(t, 80)
+		return p
+	}
 	np := rapid.IntRange(2, 3).Draw(t, "procs")
 	maxOps := 4
 	if tier == "thorough" {
@@ -120,7 +136,11 @@ func genPlan(t *rapid.T, tier string) any {
 			n := rapid.IntRange(1, maxOps).Draw(t, "nops")
 			for k := 0; k < n; k++ {
 				op := Op{ID: pickID()}
-				switch x := rapid.IntRange(0, 9).Draw(t, "kind"); {
+				switch x := rapid.IntRange(0, 10).Draw(t, "kind"); {
+				case x == 10:
+					// another user of the directory trims it meanwhile: everything here is fresh, so a Trim
+					// (due: there is no trim record yet) must not remove anything
+					op.Kind = "trim"
 				case x <= 3:
 					op.Kind = "put"
 				case x == 4:
@@ -263,7 +283,7 @@ func run(t *testing.T, plan any, keep bool) *simcheck.Outcome {
 		id      int
 	}
 	var held []heldBytes
-	lookups, hits, missesDuring, dropped := 0, 0, 0, 0
+	lookups, hits, missesDuring, dropped, trims := 0, 0, 0, 0, 0
 	type putRec struct{ id, content, start, end int }
 	type lookRec struct {
 		id, start, end, content int // content -1: miss
@@ -379,6 +399,12 @@ func run(t *testing.T, plan any, keep bool) *simcheck.Outcome {
 						}
 						completed[op.ID][op.Content] = true
 						pr.end = s.Steps()
+					case "trim":
+						if err := c.Trim(); err != nil {
+							out.Violate("trim-error", "%s Trim failed without any injected fault: %v", tag, err)
+							return
+						}
+						trims++
 					case "getbytes":
 						data, e, err := c.GetBytes(id)
 						checkLookup("GetBytes", op.ID, data, e, err, mustHit, tag)
@@ -508,6 +534,7 @@ func run(t *testing.T, plan any, keep bool) *simcheck.Outcome {
 	}
 	out.Nontrivial = rep.Switches > len(p.Tasks)+1
 	out.Count("shape_output_trimmed_away", int64(dropped))
+	out.Count("concurrent_trims", int64(trims))
 	out.Count("lookups", int64(lookups))
 	out.Count("lookup_hits", int64(hits))
 	out.Count("lookup_misses", int64(missesDuring))
@@ -528,7 +555,7 @@ func run(t *testing.T, plan any, keep bool) *simcheck.Outcome {
 var harness = &simcheck.Harness{
 	Property: "C11",
 	Level:    "exploration",
-	Rule: "rapid draws 2-3 simulated processes x 1-2 goroutines x 1-4(5) operations (Put via PutBytes or a chunking reader, GetBytes, GetFile) over 3 ids and up to 4 contents " +
+	Rule: "rapid draws 2-3 simulated processes x 1-2 goroutines x 1-4(5) operations (Put via PutBytes or a chunking reader, GetBytes, GetFile, now and then a Trim - which finds only fresh entries and must remove nothing) over 3 ids and up to 4 contents " +
 		"(sizes 0..40000; per id either every writer stores the same content or contents differ; a quarter of the plans instantiate the statement's own scenario: an id holding other content is re-stored identically by two processes while a third looks it up), optionally an output file that went missing before the concurrent phase (the state a Trim leaves), torn page-granular transfers on/off, read and copy chunk sizes, and a schedule; " +
 		"non-trivial = more context switches than task starts; distinct by decision-trace hash",
 	Gen:     genPlan,
